@@ -212,4 +212,37 @@ func init() {
 		Outside:     []string{"how configuration-level `variables:` travel from the file into cfg.Variables (Config.merge -> mergo, reflection: not encodable; a defect there - they are dropped - is known from reading and NOT detectable by this check)", "real text/template semantics (stub: single-reference template resolves to the value if the key is present, error otherwise - the missingkey=error contract)", "Root (set inside Loader.Load, stubbed)", "urfave/cli flag parsing"},
 		Assumptions: []string{"stubs: Loader.Load returns the harness configuration; cli.Context accessors; utils.RenderString model; shell parser/interpreter; os.Environ/Getwd", "executed for real: the app's Before hook (--set loop), rootAction, buildTaskRunner, taskArgs, runTarget/runTask/runPipeline, NewTaskRunner, TaskRunner.Run, TaskCompiler, Scheduler.Schedule/runStage, DefaultExecutor.Execute"},
 		Replay:      map[string]*ReplaySpec{"*": {PkgDir: "cmd/taskctl", File: "C10_replay_test.go", Test: "TestVerifReplayC10"}}})
+
+	schedJobs := func(tier string) []*Job {
+		var js []*Job
+		for e := int64(0); e < 64; e++ {
+			for am := int64(0); am < 8; am++ {
+				js = append(js, &Job{Pkg: pkgScheduler, Func: "VerifSchedPass", Args: []int64{3, e, am}, Timeout: 30 * time.Minute, MaxSteps: 100000000})
+			}
+			pb := int64(1)
+			if tier == "thorough" {
+				pb = 2
+			}
+			js = append(js, &Job{Pkg: pkgScheduler, Func: "VerifSchedWhole", Args: []int64{3, e, pb}, Timeout: 30 * time.Minute, MaxSteps: 2000000000})
+		}
+		for e := int64(0); e < 4; e++ {
+			for am := int64(0); am < 4; am++ {
+				js = append(js, &Job{Pkg: pkgScheduler, Func: "VerifSchedPass", Args: []int64{2, e, am}, Timeout: 10 * time.Minute})
+			}
+		}
+		js = append(js, &Job{Pkg: pkgScheduler, Func: "VerifSchedWorker", Args: []int64{0}, Timeout: 5 * time.Minute})
+		js = append(js, &Job{Pkg: pkgScheduler, Func: "VerifSchedWorker", Args: []int64{1}, Timeout: 5 * time.Minute})
+		return js
+	}
+	schedBounds := map[string]interface{}{
+		"quick":    "every directed graph on 3 stages (64 edge sets over ordered pairs; the 25 acyclic ones are analysed, declaration order = visiting order so all orders are covered) and on 2 stages; per stage symbolic allow_failure, outcome, condition absent/true/false. (a) interference mode: ONE pass / the exit path of the real Schedule from an ARBITRARY state satisfying the invariant, worker interference (rely relation) at every atomic operation - covers runs of any length and every fine-grained interleaving; (b) the real worker closure for a task stage and a nested-pipeline stage against the rely relation; (c) thread mode: whole Schedule runs from the initial state, interleavings enumerated with preemption bound 1",
+		"thorough": "same graphs; thread-mode cross-check with preemption bound 2",
+	}
+	schedOutside := []string{"more than 3 stages (a 4-stage graph did not finish within 20 minutes per graph in interference mode, nor in thread mode: not registered)", "nesting deeper than one level (the nested Schedule call is the same function; the worker harness checks that its result is propagated)", "a stage condition that cannot be evaluated, and external Cancel (cancellation: see C12 / C03 thread-mode harness)", "wall-clock overlap: the 50 ms pause is the cut point / a deschedule", "the composition step obligations => property is a hand argument (DESIGN C01-C04); the thread-mode runs are its end-to-end cross-check"}
+	schedAssume := []string{"rely relation iStep/iMayStop for workers (validated against the real goroutine body by VerifSchedWorker)", "checkStageCondition stubbed: a stage's condition has a fixed truth value", "runner.Runner stubbed; tasks terminate", "sync/atomic, WaitGroup, go statements: engine intrinsics; sequential consistency at atomic operations", "map iteration order = insertion (declaration) order; all orders covered by enumerating edge sets over ordered pairs"}
+	schedReplay := map[string]*ReplaySpec{"*": {PkgDir: "pkg/scheduler", File: "C01_replay_test.go", Test: "TestVerifReplaySched"}}
+	for _, id := range []string{"C01", "C02", "C03", "C04"} {
+		covers := []string{"C01.acyclic-graph", "C01.launch", "C03.pass-reaches-the-pause", "C03.schedule-returns", "C01.worker-checked", "C03.whole-run-returns", "C04.all-eligible-started-in-one-pass"}
+		register(&PropSpec{ID: id, Jobs: schedJobs, Harness: []string{"C01"}, Covers: covers, Bounds: schedBounds, Outside: schedOutside, Assumptions: schedAssume, Replay: schedReplay})
+	}
 }
